@@ -285,6 +285,67 @@ def gen_LE(m):
             yield c2
 
 
+def check_bundled_providers(acc, prop='C01'):
+    """The bundled middlewares that provide names, with non-default names and several fields: a route whose endpoint
+    requires the names is accepted and receives each field's own value; a route that takes none of them works too."""
+    from clastic import Application, Route, POST
+    from clastic.middleware.url import GetParamMiddleware, ScriptRootMiddleware
+    from clastic.middleware.form import PostDataMiddleware
+    from clastic.middleware.cookie import SignedCookieMiddleware
+    from werkzeug.wrappers import Response
+    from mc import wsgi
+    seen = {}
+
+    def mk(names):
+        ns = {'seen': seen, 'Response': Response}
+        exec('def ep(%s):\n    seen.update(%s)\n    return Response("ok")\n'
+             % (', '.join(names), '{' + ', '.join('%r: %s' % (n, n) for n in names) + '}'), ns)
+        return ns['ep']
+    cases = [
+        ('getparam', lambda: GetParamMiddleware(['qa', 'qb', 'qc']), ['qa', 'qb', 'qc'], 'GET', 'qa=1&qb=2&qc=3', b'',
+         {'qa': '1', 'qb': '2', 'qc': '3'}),
+        ('getparam-typed', lambda: GetParamMiddleware({'qa': int, 'qb': str}), ['qa', 'qb'], 'GET', 'qa=7&qb=x', b'',
+         {'qa': 7, 'qb': 'x'}),
+        ('postdata', lambda: PostDataMiddleware({'fa': str, 'fb': str, 'fc': int}), ['fa', 'fb', 'fc'], 'POST', '',
+         b'fa=1&fb=2&fc=3', {'fa': '1', 'fb': '2', 'fc': 3}),
+        ('postdata-list', lambda: PostDataMiddleware(['fa', 'fb']), ['fa', 'fb'], 'POST', '', b'fa=x&fb=y', {'fa': 'x', 'fb': 'y'}),
+        ('cookie-named', lambda: SignedCookieMiddleware(secret_key=b'k', arg_name='session'), ['session'], 'GET', '', b'', None),
+        ('scriptroot-named', lambda: ScriptRootMiddleware('mount'), ['mount'], 'GET', '', b'', {'mount': ''}),
+    ]
+    for label, mkmw, names, method, query, body, want in cases:
+        for level in ('app', 'route'):
+            for takes in ('all', 'first', 'none'):
+                taken = {'all': names, 'first': names[:1], 'none': []}[takes]
+                acc.evaluated += 1
+                acc.transitions += 1
+                acc.validated += 1
+                acc.add('nontrivial')
+                case = {'layer': 'bundled-providers', 'label': label, 'level': level, 'takes': takes}
+                seen.clear()
+                try:
+                    mw = mkmw()
+                    rt = Route('/r', mk(taken), methods=[method], middlewares=[mw] if level == 'route' else [])
+                    app = Application([rt], middlewares=[mw] if level == 'app' else [])
+                except Exception as e:
+                    acc.violation('%s:bundled-provider-rejected:%s' % (prop, label), 'satisfiable configuration (%s at %s level, endpoint '
+                                  'takes %r) rejected with %r' % (label, level, taken, e), case)
+                    continue
+                hdrs = {'Content-Type': 'application/x-www-form-urlencoded'} if body else None
+                res = wsgi.call(app, '/r', method, query=query, headers=hdrs, body=body)
+                acc.outcome('bundled-providers:%s' % label)
+                if res.raised is not None or res.code != 200:
+                    acc.violation('%s:bundled-provider-request-failed:%s' % (prop, label), '%s at %s level, endpoint takes %r: answered '
+                                  '%s %r' % (label, level, taken, res.status, res.raised), case)
+                    continue
+                if want is not None:
+                    exp = dict((n, want[n]) for n in taken)
+                    if seen != exp or any(type(seen[n]) is not type(exp[n]) for n in exp):
+                        acc.violation('%s:bundled-provider-values:%s' % (prop, label), '%s handed over %r, the request says %r'
+                                      % (label, dict(seen), exp), case)
+                elif taken and type(seen.get('session')).__name__ != 'JSONCookie':
+                    acc.violation('%s:bundled-provider-values:%s' % (prop, label), 'the cookie argument is %r' % (seen,), case)
+
+
 def layers(tier):
     if tier == 'quick':
         return [('L1a-0', lambda: gen_L1a(0, False)), ('L1a-1', lambda: gen_L1a(1, False)),
@@ -405,7 +466,12 @@ def shard(tier, i, n, seed):
             check_config(acc, h, cfg, name, reraiser)
             if k % 20011 == i:
                 acc.sample({'layer': name, 'cfg': cfg})
+    if i == 5 % n:
+        check_bundled_providers(acc, 'C01')
     return acc
+
+
+BUNDLED_ITEMS = 6 * 2 * 3
 
 
 def space_size(tier):
@@ -420,6 +486,7 @@ def finish(tier, merged, results):
         if not any(k.split(':')[1].startswith('either') for k in oc):
             raise common.InternalError('vacuous: no cyclic configuration enumerated')
     sizes = dict((name, sum(1 for _ in gen())) for name, gen in layers(tier))
+    sizes['bundled-providers'] = BUNDLED_ITEMS
     return {'space_size': sum(sizes.values()), 'bounds': {'layers': sizes},
             'distinct_nontrivial': merged['extra'].get('nontrivial', 0),
             'coverage': {'note': 'distinct_nontrivial = configurations in which some function requires the name '
@@ -432,6 +499,9 @@ def replay(case):
     common.setup_repo()
     acc = common.Acc()
     h = chain.Harness()
+    if case.get('layer') == 'bundled-providers':
+        check_bundled_providers(acc, 'C01')
+        return (False, acc.violations[0]['desc']) if acc.violations else (True, 'ok')
     acc.evaluated = {'list': 2, 'add': 0, 'bind': 1}.get(case.get('construct', 'list'), 2)
     check_config(acc, h, case['cfg'], case.get('layer', 'replay'), reraiser)
     if acc.violations:
